@@ -115,6 +115,10 @@ func c03Check(c c03Case) error {
 			if uint64(fl)&^uint64(simdjson.FloatOverflowedInteger) != 0 {
 				return fmt.Errorf("[%s] literal %s: undocumented float flags %#x", cfg, c.Lit, uint64(fl))
 			}
+			// the flag set as a caller would build it for a comparison
+			if want := simdjson.FloatOverflowedInteger.Flags(); gflag != (fl == want) || !want.Contains(simdjson.FloatOverflowedInteger) {
+				return fmt.Errorf("[%s] literal %s: flags %#x compared with FloatOverflowedInteger.Flags() = %#x disagrees with Contains = %v", cfg, c.Lit, uint64(fl), uint64(want), gflag)
+			}
 		}
 		if gt != wt || gbits != wbits || gflag != wflag {
 			return fmt.Errorf("[%s] literal %s exposed as type %c bits %#x flag %v; documented exposure is type %c bits %#x flag %v (%s vs %s)",
